@@ -17,6 +17,7 @@ import (
 	"github.com/paulmach/osm/osmxml"
 
 	"verif/internal/eq"
+	"verif/internal/fw"
 	"verif/internal/mon"
 )
 
@@ -286,4 +287,15 @@ func xmlTrim(s string, n int) string {
 		return s
 	}
 	return s[:n] + fmt.Sprintf("…(%d more bytes)", len(s)-n)
+}
+
+// xmlMerge adds what a goroutine-local result observed to the case's result.
+func xmlMerge(dst, src *fw.Result) {
+	dst.Event(src.Events)
+	for k, n := range src.Counts {
+		dst.Add(k, n)
+	}
+	for _, v := range src.Violations {
+		dst.Violate(v.Key, v.What, v.Detail)
+	}
 }
